@@ -4,7 +4,7 @@ from . import resolvelib as R
 PROPERTY = "C13"
 DRIVER = "TraitsVerif/Driver/Resolve.lean"
 PROPS_MODULES = ["TraitsVerif.Props.C13"]
-TRANSLATORS = ["prefix"]
+TRANSLATORS = ["prefixtable", "resolve_c", "resolve_py"]
 RULE = ("class hierarchies of 1-3 levels below HasTraits / HasStrictTraits / HasPrivateTraits built with "
         "MetaHasTraits(name, bases, dict), declaring exact traits and wildcard traits (x_, xy_, xyx_, _, __, ...) of "
         "kinds Any/Int/Str/ReadOnly/Constant/Event/Disallow/Python with and without defaults; 1-3 objects; histories "
@@ -22,7 +22,18 @@ TRUSTED = ["validators are parameters of the model (Env.validate); the driver in
            "declaration identity is observed through metadata tag=<n> carried by every generated trait and "
            "preserved by clone; library traits are identified by handler identity",
            "class-trait dictionaries of HasTraits/HasStrictTraits/HasPrivateTraits are restored before every case "
-           "(they cache resolved prefix traits process-wide)"]
+           "(they cache resolved prefix traits process-wide)",
+           "source tie (translators resolve_c / resolve_py, Model/ResL.lean): the interpreter's reading of the C API and "
+           "Python primitives (`prim`: dictionary calls act on the four dictionaries of the model with write-through, "
+           "PyObject_GenericGetAttr = genericGet, trait->getattr / trait->setattr = getattrKind / setattrKind, "
+           "has_traits_setattro(obj, trait_added, name) = fireTraitAdded, trait->notifiers = NULL, names are str); "
+           "reference counting and assert are dropped by the C reader; `self._trait(name, i)` is interpreted by the "
+           "program of get_trait - justified for i >= -1 by C13_trait_call_is_source (the translated wrapper "
+           "_has_traits_trait, PyArg_ParseTuple(args, 'Oi', &name, &instance) read as the binding of its parameters); the "
+           "delegate chain of i = -2 is an opaque statement, not interpreted; statements about static handlers / companion traits / add_trait's argument normalisation are "
+           "ghost no-ops pinned by their exact text (resolve_py.GHOST)",
+           "extra_checks: a static trait_added handler that adds instance traits is built directly in Python (outside "
+           "the case language)"]
 ASSUMPTIONS = ["trait_added listeners are modelled for one shape only: add_trait(new, Spec) for names starting with a "
                "prefix (Obj.hooks); the theorems carry NoDeleg, which also says that no such listener is installed - "
                "except C13_reentrant_add_governs, which is about them",
@@ -66,6 +77,12 @@ def corpus():
         # a trait_added listener adds an instance trait for the name being resolved: it governs that very access
         "res|cls A S f_=Int@1;new a A;new b A;hook a .f_s Str@9;get a .f_s1;get a .f_n1;set a .f_s2 sx;set a .f_s2 i3;"
         "rem a .f_s2;get a .f_s2;get b .f_s3;get a .f_s3;hook a .z Dis@7;add a .zz Int@6;get a .zz",
+        # harness regression: a class trait NAMED like a HasTraits method (`_trait`) must not break the driver, which
+        # calls the API unbound (the generators no longer produce such names: resolvelib.safe_attr)
+        # (implementation + driver only: traits' own `_trait_added_changed` calls the shadowed `self._trait`, a user
+        # error outside the property, so neither the model nor the oracle are asked)
+        "#res|cls C1 H -;cls C2 C1 -;cls C3 C2 xx=EvInt@1,ab_=Str@2;new a C3;new b H;new c C3;cls L C2 _trait=Any:i3@3;"
+        "new z L;get z ._traits_cache_q;trt z ._trait 0;add z .trait Int@4;rem z .trait",
         # strict / private defaults, instance trait shadows and is removed again
         "res|cls A S -;cls B P -;new a A;new b B;get a .u;set a .u i1;del a .u;get b .u;get b ._u;set b ._u sa;"
         "get b ._u;add a .u Int@9;set a .u i3;get a .u;rem a .u;get a .u;set a .u i1",
@@ -135,6 +152,16 @@ def run_impl(case):
             delegs |= {it.split("=")[0] for it in R.list_field(w[3]) if "=Deleg" in it}
         elif w and w[0] == "add" and len(w) == 4 and w[3].startswith("Deleg"):
             delegs.add(w[2][1:])
+    # a declared / added / accessed name that is an attribute of HasTraits shadows the API traits itself calls:
+    # user error outside the property (TRUSTED); such a case is executed (the driver must survive it) but not judged
+    api = R.api_names()
+    shadowing = False
+    for op in ops.split(";"):
+        w = op.split()
+        if w and w[0] == "cls" and len(w) == 4:
+            shadowing |= any(it.split("=")[0] in api for it in R.list_field(w[3]))
+        elif w and w[0] in ("get", "set", "del", "add", "rem", "trt") and len(w) >= 3:
+            shadowing |= w[2][1:] in api
     for op in [o.strip() for o in ops.split(";") if o.strip()]:
         words = op.split()
         try:
@@ -145,6 +172,9 @@ def run_impl(case):
         k = words[0]
         if info is None:
             tags.add(out)
+            continue
+        if shadowing:
+            tags.add("api-shadowing(outside the property)")
             continue
         tags.add("op:" + k)
         # ------------------------------------------------------------- oracle
@@ -274,6 +304,47 @@ def run_impl(case):
             else:
                 o.vals[name] = R.show_val(post)
     return " ; ".join(outs), hits, tags
+
+
+def extra_checks(ctx):
+    """Direct probes of paths the case language cannot reach (found through the source tie, Props/C13
+    `C13_get_trait_is_source_partial`): `get_trait(obj, name, 2)` on an object whose instance-trait dictionary
+    does not exist yet, for a name resolved through a wildcard for the first time, while a *static* `trait_added`
+    handler of the class adds instance traits during that resolution.  By the property an instance trait that
+    `add_trait` added governs its name from then on; the C function overwrites `obj->itrait_dict` with a new
+    dictionary (it tested the pointer it had read before the resolution), so those instance traits are gone."""
+    from traits.api import HasTraits, Int, Str, push_exception_handler, pop_exception_handler
+    hits = []
+    push_exception_handler(handler=lambda *a: None, reraise_exceptions=True)
+    try:
+        class A(HasTraits):
+            x_ = Int
+
+            def _trait_added_changed(self, name):
+                if not name.endswith("_o"):
+                    HasTraits.add_trait(self, name + "_o", Str())
+
+        probes = (("_trait(name, 2)", lambda o, n: HasTraits._trait(o, n, 2)),
+                  ("on_trait_change(h, name)", lambda o, n: HasTraits.on_trait_change(o, lambda: None, n)))
+        for i, (what, call) in enumerate(probes):
+            for dict_first in (False, True):
+                name = "xprobe%d%d" % (i, dict_first)
+                a = A()
+                if dict_first:
+                    HasTraits._instance_traits(a)        # creates the dictionary before the resolution
+                call(a, name)
+                got = sorted(HasTraits._instance_traits(a))
+                if name + "_o" not in got:
+                    hits.append(_hit("get_trait:stale-null-itrait-dict-drops-instance-traits",
+                                     "fresh object%s, %s for the undeclared wildcard name %r: the trait_added handler "
+                                     "added the instance trait %r during the resolution, afterwards the instance "
+                                     "traits are %r" % (" (instance-trait dictionary created first)" if dict_first
+                                                        else "", what, name, name + "_o", got),
+                                     case="#extra: %s, dict_first=%s" % (what, dict_first), no_shrink=True))
+    finally:
+        pop_exception_handler()
+        R.restore_roots()
+    return hits
 
 
 def classify(k, name, info, real, g, d, route, late_names, over_value, was_written, multi, foreign_shadow):
